@@ -17,6 +17,10 @@ static int64_t nv_param_max_evals(void) { return nv_max_evals; }
 /* assumed contract of function_t::fcalls()/gcalls(): both count the vgrad evaluations performed so far (function_t::vgrad
  * increments both when a gradient buffer is passed); the ghost version counter counts exactly those evaluations */
 static int64_t nv_fn_calls(const struct nv_function* f) { return (int64_t)nv_ver_counter; }
+/* solvers that also evaluate without a gradient (specs/C02/nonls.h) count gradient evaluations separately */
+#ifndef NV_GCOUNT
+#define NV_GCOUNT nv_ver_counter
+#endif
 
 /* assumed contract of solver_state_t{function, x0}: one evaluation at x0, status max_iters, reported counts copied */
 static struct nv_state nv_state_make(const struct nv_function* f, const struct nv_opaque* x0)
@@ -34,7 +38,7 @@ static struct nv_state nv_state_default(void)
 static double nv_state_gradient_test(const struct nv_state* s) { return s->gtest; }
 static int32_t nv_state_status(const struct nv_state* s) { return s->m_status; }
 static void nv_state_set_status(struct nv_state* s, int32_t st) { s->m_status = st; }
-static void nv_state_update_calls(struct nv_state* s) { s->m_fcalls = (int64_t)nv_ver_counter; s->m_gcalls = (int64_t)nv_ver_counter; }
+static void nv_state_update_calls(struct nv_state* s) { s->m_fcalls = (int64_t)nv_ver_counter; s->m_gcalls = (int64_t)NV_GCOUNT; }
 static struct nv_lsearch nv_make_lsearch(const struct nv_solver* s) { struct nv_lsearch l; l.m_last_step_size = nv_nondet_double(); return l; }
 static double nv_lsearch0_get(const struct nv_lsearch0* l, const struct nv_state* s, const struct nv_opaque* d, double last) { return nv_nondet_double(); }
 
@@ -60,15 +64,20 @@ __CPROVER_ensures(state->m_status == __CPROVER_old(state->m_status))
  *   C01: status becomes `converged` only if the caller's convergence test held;
  *   C02: "unless the status is failed the returned point and value are finite": a state that is not valid is never
  *        given the status `converged`. */
+#ifndef NV_DONE_EXTRA_REQUIRES
+#define NV_DONE_EXTRA_REQUIRES 1
+#endif
+/* (no consistency precondition on the state: the non line-search solvers call done() on a best state whose stored
+ *  sub-gradient may be stale) */
 #define NV_CONTRACT_solver_done \
-__CPROVER_requires(__CPROVER_is_fresh(state, sizeof(*state)) && NV_STATE_OK(state) && NV_COUNTER_OK) \
+__CPROVER_requires(__CPROVER_is_fresh(state, sizeof(*state)) && NV_COUNTER_OK && NV_DONE_EXTRA_REQUIRES) \
 __CPROVER_assigns(state->m_status, state->m_fcalls, state->m_gcalls) \
 __CPROVER_ensures(__CPROVER_return_value == (converged || !(iter_ok && state->valid))) \
 __CPROVER_ensures(!__CPROVER_return_value ==> state->m_status == __CPROVER_old(state->m_status)) \
 __CPROVER_ensures(__CPROVER_return_value ==> (state->m_status == NVE_solver_status_converged || state->m_status == NVE_solver_status_failed)) \
 __CPROVER_ensures((__CPROVER_return_value && state->m_status == NVE_solver_status_converged) ==> converged) \
 __CPROVER_ensures((__CPROVER_return_value && state->m_status == NVE_solver_status_converged) ==> state->valid) \
-__CPROVER_ensures(state->m_fcalls >= 0 && (uint64_t)state->m_fcalls <= nv_ver_counter && state->m_gcalls >= 0 && (uint64_t)state->m_gcalls <= nv_ver_counter)
+__CPROVER_ensures(state->m_fcalls >= 0 && (uint64_t)state->m_fcalls <= nv_ver_counter && state->m_gcalls >= 0 && (uint64_t)state->m_gcalls <= NV_GCOUNT)
 
 /* ---- do_minimize of gd / cgd / lbfgs / quasi */
 #define NV_RET __CPROVER_return_value
